@@ -166,16 +166,19 @@ func (engine *Engine) RewriteLog() error {
 
 	engine.startRewriteFunc()
 	defer engine.finishRewriteFunc()
+	verifPoint("rewrite.begin")
 
 	// Create AOF preamble.
 	if err := engine.preambleStore.CreatePreamble(); err != nil {
 		return fmt.Errorf("rewrite log error: create preamble error: %+v", err)
 	}
 
+	verifPoint("rewrite.after_preamble")
 	// Truncate the AOF file.
 	if err := engine.appendStore.Truncate(); err != nil {
 		return fmt.Errorf("rewrite log error: create aof error: %+v", err)
 	}
+	verifPoint("rewrite.after_truncate")
 
 	return nil
 }
